@@ -21,6 +21,12 @@ var shapes = []struct {
 	{"post", beSpec{pattern: "/post", method: "POST"}},
 	{"put", beSpec{pattern: "/put/{id}", method: "PUT"}},
 	{"head", beSpec{pattern: "/head", method: "HEAD"}},
+	{"options", beSpec{pattern: "/opt", method: "OPTIONS"}},
+	{"trace", beSpec{pattern: "/trc/{id}", method: "TRACE", hdrs: []string{"X-A"}}},
+	{"patch", beSpec{pattern: "/pat", method: "PATCH"}},
+	{"purge", beSpec{pattern: "/prg", method: "PURGE"}},
+	{"lower-get", beSpec{pattern: "/lget", method: "get"}},
+	{"mixed-options", beSpec{pattern: "/mopt", method: "Options", qs: []string{"x"}}},
 	{"gql-post", beSpec{pattern: "/g1", gql: &gqlSpec{vars: "param"}}},
 	{"gql-get", beSpec{pattern: "/g2", gql: &gqlSpec{get: true, vars: "param"}}},
 	{"gql-get-qf", beSpec{pattern: "/g3", qs: []string{"x"}, hdrs: []string{"X-A"}, gql: &gqlSpec{get: true, vars: "static"}}},
@@ -78,6 +84,17 @@ func scenarios(cfg out.Config, r *rng.R, raceMode bool) []scenario {
 	add("corpus", "POST", 3, reqB, "post", "put", "qf-hf")
 	add("corpus", "GET", 1, reqB, "post", "gql-get")
 	add("corpus", "GET", 2, reqB, "put", "gql-post", "head")
+	// bodies are replicated whenever SOME backend uses a method other than GET/HEAD - also
+	// the "safe" OPTIONS/TRACE, non-standard methods and other spellings
+	add("corpus", "GET", 1, reqB, "options", "plain")
+	add("corpus", "GET", 1, reqB, "trace", "head")
+	add("corpus", "GET", 2, reqB, "options", "options")
+	add("corpus", "POST", 1, reqB, "head", "trace", "options", "lower-get")
+	add("corpus", "GET", 1, reqB, "lower-get", "mixed-options")
+	add("corpus", "GET", 1, reqB, "plain", "purge")
+	add("corpus", "GET", 1, reqB, "head", "patch")
+	add("corpus", "GET", 1, reqB, "lower-get", "head") // all GET/HEAD by ToUpper: out of scope, body dropped
+	add("corpus", "OPTIONS", 1, reqB, "plain", "head")
 
 	// ---- exhaustive small scope: singles and ordered pairs
 	ccs := []int{1, 2}
@@ -95,10 +112,13 @@ func scenarios(cfg out.Config, r *rng.R, raceMode bool) []scenario {
 	for i, s1 := range shapes {
 		for j, s2 := range shapes {
 			for _, cc := range ccs {
-				if raceMode && !cfg.Thorough() && cc == 2 && (i+j)%3 != 0 {
+				if raceMode && !cfg.Thorough() && ((cc == 2 && (i+j)%3 != 0) || (cc == 1 && (i+2*j)%3 == 1)) {
 					continue
 				}
 				add("pair", "GET", cc, reqA, s1.name, s2.name)
+				if (i*7+j*3+cc)%4 == 0 || cfg.Thorough() {
+					add("pair", "GET", cc, reqB, s1.name, s2.name) // a GET client request that carries a body
+				}
 				if (i+j+cc)%2 == 0 || cfg.Thorough() {
 					add("pair", "POST", cc, reqB, s1.name, s2.name)
 				}
@@ -107,7 +127,7 @@ func scenarios(cfg out.Config, r *rng.R, raceMode bool) []scenario {
 	}
 
 	// ---- structured random
-	nrand := 700
+	nrand := 450
 	if raceMode {
 		nrand = 150
 	}
@@ -118,7 +138,7 @@ func scenarios(cfg out.Config, r *rng.R, raceMode bool) []scenario {
 	qPool := []string{"x", "y", "z", "query", "variables"}
 	for i := 0; i < nrand; i++ {
 		n := 1 + r.Intn(4)
-		sc := scenario{name: "random", epMethod: []string{"GET", "GET", "POST"}[r.Intn(3)], cc: 1 + r.Intn(3)}
+		sc := scenario{name: "random", epMethod: []string{"GET", "GET", "POST", "OPTIONS", "HEAD"}[r.Intn(5)], cc: 1 + r.Intn(3)}
 		if r.Chance(1, 2) {
 			sc.cc = 1
 		}
@@ -128,7 +148,7 @@ func scenarios(cfg out.Config, r *rng.R, raceMode bool) []scenario {
 			if r.Chance(1, 2) {
 				b.pattern += "/{id}"
 			}
-			b.method = []string{"", "", "GET", "POST", "PUT", "HEAD", "DELETE"}[r.Intn(7)]
+			b.method = []string{"", "", "GET", "GET", "HEAD", "HEAD", "POST", "PUT", "DELETE", "OPTIONS", "OPTIONS", "TRACE", "PATCH", "CONNECT", "PURGE", "get", "Head", "options", "post"}[r.Intn(19)]
 			for j, m := 0, r.Intn(4); j < m && r.Chance(2, 3); j++ {
 				b.hdrs = append(b.hdrs, r.Pick(hdrPool))
 			}
@@ -155,7 +175,7 @@ func scenarios(cfg out.Config, r *rng.R, raceMode bool) []scenario {
 			q := r.Pick(qPool)
 			rq.qry[q] = append(rq.qry[q], []string{"1", "a b", "ü&=", ""}[r.Intn(4)])
 		}
-		if sc.epMethod == "POST" || r.Chance(1, 4) {
+		if sc.epMethod == "POST" || r.Chance(1, 2) {
 			rq.body = sp([]string{`{"v":2}`, `{"id":"zz","deep":{"a":[1,2]}}`, `oops`, ``, `{}`}[r.Intn(5)])
 		}
 		sc.req = rq
@@ -208,7 +228,7 @@ func reuseScenarios(cfg out.Config, r *rng.R, raceMode bool) (seqs, concs []scen
 		n := 1 + r.Intn(3)
 		sc := scenario{name: "reuse-random", epMethod: []string{"GET", "POST"}[r.Intn(2)], cc: 1 + r.Intn(3)}
 		for k := 0; k < n; k++ {
-			b := beSpec{pattern: fmt.Sprintf("/u%d/{id}", k), method: []string{"", "GET", "POST", "PUT"}[r.Intn(4)]}
+			b := beSpec{pattern: fmt.Sprintf("/u%d/{id}", k), method: []string{"", "GET", "POST", "PUT", "OPTIONS", "HEAD", "TRACE"}[r.Intn(7)]}
 			for j, m := 0, 1+r.Intn(3); j < m; j++ {
 				b.hdrs = append(b.hdrs, r.Pick(hdrPool))
 			}
